@@ -7,6 +7,7 @@ import PrqlModel.Drv.Util
 import PrqlModel.Model.Pratt
 import PrqlModel.Model.SqlExpr
 import PrqlModel.Model.SqlPrec
+import PrqlModel.Model.Fmt
 namespace Drv.Expr
 open Drv Gen.Pratt Model.PExpr Model.Pratt Model.SqlExpr Model.Val
 
@@ -150,6 +151,17 @@ def handle (fields : List String) : Option String :=
         | _, _ => "na"
       some s!"src={encStr src}\trq={showP p}\tsql={match sql with | some s => encStr s | none => "-"}\treparse={reparse}\tsqlparse={sp}\tprec={prec}"
     | _, _ => some "err request"
+  | ["c14fmt", tree] =>
+    match (SExp.ofString tree).bind sexpr? with
+    | some e => some s!"src={encStr (srcText e)}\tfmt={encStr (Model.Fmt.fmtExpr e)}"
+    | none => some "err request"
+  | ["c14lit", kind, text] =>
+    -- display of a literal / identifier given as text: str | ident | alias
+    let s := decStr text
+    if kind == "str" then some (encStr (Model.Fmt.litDisplay (.str s)))
+    else if kind == "ident" then some (encStr (Model.Fmt.displayIdentPart s))
+    else if kind == "alias" then some (encStr (Model.Fmt.writeIdentPart s))
+    else some "err request"
   | ["c02eval", d, tree, ncols, dom] =>
     match dialect? d, (SExp.ofString tree).bind sexpr?, ncols.toNat?, ((dom.splitOn " ").filter (· != "")).mapM domVal? with
     | some dl, some e, some n, some dm =>
